@@ -58,6 +58,86 @@ pub fn machine_of_size(target: u64) -> Option<Machine> {
     None
 }
 
+
+/// payloads for the legacy v1 parser: the inflated test blobs (mutated), and structured random
+/// payloads following the layout (35-byte header, n blocks of 106 + 64(n+2) bytes)
+fn gen_v1_payload(r: &mut SplitMix64) -> Vec<u8> {
+    use std::io::Read;
+    let f64s = [0.0f64, 0.0, 0.0, 1.0, 0.5, 0.25, 0.75, 1.0000001, -0.0, -1.0, 2.0, 10.0, 1e6, f64::NAN, f64::INFINITY, 1e-320, 0.1, 0.3333333333333333];
+    if r.chance(1, 3) {
+        let t = V1[r.below(3) as usize];
+        let comp: Vec<u8> = (0..t.len() / 2).map(|j| u8::from_str_radix(&t[2 * j..2 * j + 2], 16).unwrap()).collect();
+        let mut d = flate2::read::ZlibDecoder::new(&comp[..]);
+        let mut buf = vec![];
+        d.read_to_end(&mut buf).unwrap();
+        let mut p = buf[2..].to_vec();
+        if r.chance(4, 5) {
+            for _ in 0..r.range(1, 4) {
+                if p.is_empty() {
+                    break;
+                }
+                let k = r.below(p.len() as u64) as usize;
+                match r.below(6) {
+                    0 => p[k] ^= 1 << r.below(8),
+                    1 => p[k] = *r.pick(&[0, 1, 2, 5, 7, 10, 11, 255]),
+                    2 => p.truncate(k),
+                    3 => p.push(r.next() as u8),
+                    4 => {
+                        // overwrite an aligned f64 with a special value
+                        let v = r.pick(&f64s).to_le_bytes();
+                        for (j, x) in v.iter().enumerate() {
+                            if k + j < p.len() {
+                                p[k + j] = *x;
+                            }
+                        }
+                    }
+                    _ => {
+                        p.remove(k);
+                    }
+                }
+            }
+        }
+        return p;
+    }
+    let n = r.range(0, 3) as usize;
+    let mut p: Vec<u8> = vec![];
+    p.extend_from_slice(&(*r.pick(&[0u64, 1, 100, u64::MAX])).to_le_bytes());
+    p.extend_from_slice(&r.pick(&f64s).to_le_bytes());
+    p.extend_from_slice(&(*r.pick(&[0u64, 1000, u64::MAX])).to_le_bytes());
+    p.extend_from_slice(&r.pick(&f64s).to_le_bytes());
+    p.push(r.below(3) as u8);
+    let declared = if r.chance(1, 8) { (n as u16).wrapping_add(*r.pick(&[1u16, 0xffff, 100])) } else { n as u16 };
+    p.extend_from_slice(&declared.to_le_bytes());
+    for _ in 0..n {
+        for _ in 0..3 {
+            // dist: type, p1, p2, start, max
+            let ty: u16 = if r.chance(1, 3) { 0 } else { r.below(13) as u16 };
+            p.extend_from_slice(&ty.to_le_bytes());
+            for _ in 0..4 {
+                p.extend_from_slice(&r.pick(&f64s).to_le_bytes());
+            }
+        }
+        for _ in 0..4 {
+            p.push(*r.pick(&[0u8, 1, 1, 2]));
+        }
+        for _row in 0..8 {
+            let hot = if r.chance(2, 3) { r.below(n as u64 + 3) as usize } else { usize::MAX };
+            for i in 0..n + 2 {
+                let v = if i == hot { *r.pick(&[1.0f64, 1.0, 0.5, 0.25, 1.0000001, f64::NAN]) } else if r.chance(1, 12) { *r.pick(&f64s) } else { 0.0 };
+                p.extend_from_slice(&v.to_le_bytes());
+            }
+        }
+    }
+    if r.chance(1, 10) {
+        if r.chance(1, 2) {
+            p.pop();
+        } else {
+            p.push(0);
+        }
+    }
+    p
+}
+
 fn mutate_bytes(r: &mut SplitMix64, b: &mut Vec<u8>) {
     if b.is_empty() {
         b.push(r.next() as u8);
@@ -104,12 +184,13 @@ pub fn run(seed: u64, n: usize, out: &str, only: Option<usize>) {
     let mut meta = std::io::BufWriter::new(std::fs::File::create(format!("{}/meta.txt", out)).unwrap());
     let mut master = SplitMix64::new(seed ^ 0xc11);
     let mut viol = 0usize;
-    let mut kinds = [0usize; 6];
+    let mut kinds = [0usize; 7];
     let mut distinct = std::collections::HashSet::new();
     let mut accepted_mutants = 0usize;
     let mut max_bytes = 0usize;
     let mut nsample = 0;
     let mut nboundary = 0usize;
+    let mut v1_accepted = 0usize;
     let mut boundary_sizes: Vec<u64> = vec![];
     for i in 0..n {
         let mut r = master.fork();
@@ -127,7 +208,7 @@ pub fn run(seed: u64, n: usize, out: &str, only: Option<usize>) {
         let m = gen_machine(&mut r, &mp);
         let bytes = bin().serialize(&m).unwrap();
         max_bytes = max_bytes.max(bytes.len());
-        let kind = r.below(6) as usize;
+        let kind = r.below(7) as usize;
         kinds[kind] += 1;
         let mut violation: Option<String> = None;
         let (toks, line): (Toks, Toks) = match kind {
@@ -212,6 +293,33 @@ pub fn run(seed: u64, n: usize, out: &str, only: Option<usize>) {
                     }
                 };
                 (bytes_toks(8, &b), l)
+            }
+            6 => {
+                // the legacy v1 parser against its model: the decompressed payload (after the two
+                // version bytes) is the case; the real parser gets it zlib-compressed and hex-encoded
+                let payload = gen_v1_payload(&mut r);
+                let mut full = vec![1u8, 0u8];
+                full.extend_from_slice(&payload);
+                let mut e = flate2::write::ZlibEncoder::new(Vec::new(), flate2::Compression::fast());
+                e.write_all(&full).unwrap();
+                let hexs: String = e.finish().unwrap().iter().map(|b| format!("{:02x}", b)).collect();
+                let l: Toks = match catch_unwind(AssertUnwindSafe(|| maybenot::parsing::parse_v1_machine(&hexs))) {
+                    Err(_) => {
+                        violation = Some(format!("parse_v1_machine panicked on a {}-byte payload", payload.len()));
+                        vec![9]
+                    }
+                    Ok(Err(_)) => vec![0],
+                    Ok(Ok(mm)) => {
+                        v1_accepted += 1;
+                        if mm.validate().is_err() {
+                            violation = Some("parse_v1_machine returned a machine that does not pass validation".into());
+                        }
+                        let mut l: Toks = vec![1];
+                        l.extend(bin().serialize(&mm).unwrap().iter().map(|x| *x as u64));
+                        l
+                    }
+                };
+                (bytes_toks(11, &payload), l)
             }
             _ => {
                 // the real pipeline: round trip, then hostile strings (no model case: a trivial codec case keeps indices aligned)
@@ -341,5 +449,5 @@ pub fn run(seed: u64, n: usize, out: &str, only: Option<usize>) {
         }
         let _ = from_mirror;
     }
-    writeln!(meta, "summary cases={} nontrivial={} violations={} kinds={:?} accepted_mutants={} max_bincode_bytes={} limit_boundary_sizes={:?}", n, distinct.len(), viol, kinds, accepted_mutants, max_bytes, boundary_sizes).unwrap();
+    writeln!(meta, "summary cases={} nontrivial={} violations={} kinds={:?} accepted_mutants={} max_bincode_bytes={} limit_boundary_sizes={:?} v1_accepted={}", n, distinct.len(), viol, kinds, accepted_mutants, max_bytes, boundary_sizes, v1_accepted).unwrap();
 }
